@@ -20,6 +20,9 @@ package main
 import (
 	"fmt"
 	"go/types"
+	"os"
+	"path/filepath"
+	"strings"
 )
 
 type mergeCtx struct {
@@ -485,6 +488,22 @@ func init() {
 				c.setTuple(SliceV{obj, 0, -1, -1}, IfaceV{})
 				return nil, false
 			}
+		}
+		if name.K == SLit {
+			// a file of the repository (e.g. testdata), read as it is; relative names are relative
+			// to the directory of the package under test, as under `go test`
+			path := name.S
+			if !filepath.IsAbs(path) && c.w.E.RootPkg != nil {
+				rel := strings.TrimPrefix(c.w.E.RootPkg.Pkg.Path(), "github.com/buzzfeed/sso")
+				path = filepath.Join(repoDir, rel, path)
+			}
+			b, err := os.ReadFile(path)
+			if err != nil {
+				c.setTuple(SliceV{}, c.opaqueErr(litStr(err.Error())))
+			} else {
+				c.setTuple(c.w.bytesOfString(c.s, litStr(string(b))), IfaceV{})
+			}
+			return nil, false
 		}
 		panic(engineErr("ioutil.ReadFile of a file that is not a zz.YAMLFile"))
 	}
